@@ -375,6 +375,61 @@ def r8_casting_emitter(ctx, rule="C04.R8"):
     ctx.require(rule, 3)
 
 
+BY_REF_FORMS = ("Variable", "ArrayElement", "Property")
+
+
+def r9_write_back_fixes_length_for_every_form(ctx, rule="C04.R9"):
+    """`a STRING * n ... always holds exactly n characters, including through a by-reference
+    parameter`: after a call the callee's value is written back into the argument.  The helper that
+    emits FixLength before that store decides on the TYPE of the argument; it must not also depend
+    on the syntactic form of the argument in a way that leaves out one of the three by-reference
+    forms (plain variable, array element, record field).  For each form the FixLength push must be
+    reachable in the helper's CFG when every `match` on the argument expression takes that form's
+    arm (matches on anything else are left free)."""
+    prog = ctx.prog
+    f = ctx.anchor_method("InstructionGenerator", "generate_fix_string_length")
+    body = f.body
+    evs = emit.events(prog, f)
+    pushes = {b for b, e in evs.items() if e.kind == "push" and e.instr == "FixLength"}
+    if not pushes:
+        raise CheckError("generate_fix_string_length pushes no FixLength")
+    pv = mir.Prov(body)
+    sws = {}
+    for sw in mir.enum_switches(prog, body):
+        if sw.adt.endswith("expr::types::Expression"):
+            o = mir.strip_all(pv.of_place(sw.place))
+            if o[0] == "param":
+                sws[sw.bb] = sw
+    for form in BY_REF_FORMS:
+        seen = set()
+        todo = [0]
+        while todo:
+            b = todo.pop()
+            if b in seen or body.is_cleanup(b):
+                continue
+            seen.add(b)
+            if b in sws:
+                sw = sws[b]
+                nxt = sw.arms.get(form, sw.otherwise)
+                todo.extend([nxt] if nxt is not None else [])
+            else:
+                todo.extend(body.succ(b))
+        ctx.decide(bool(pushes & seen), rule, "%s:%s" % (rule, form), f.loc,
+                   "FixLength is emitted for a by-reference argument of the form %s when its type is STRING * n" % form,
+                   "generate_fix_string_length never emits FixLength when the by-reference argument is an "
+                   "Expression::%s: after a call (or INPUT / READ) a STRING * n %s keeps whatever length "
+                   "the callee left in it" % (form, {"Variable": "variable", "ArrayElement": "array element",
+                                                     "Property": "record field"}[form]))
+    # the helper is applied to every by-ref argument before the store
+    g = ctx.anchor_method("InstructionGenerator", "generate_un_stash_by_ref_args")
+    calls = [b for b, t in g.body.calls() if mir.callee_of(t) == f.id]
+    stores = [b for b, t in g.body.calls() if mir.callee_path(t).split("::")[-1] == "generate_store_instructions"]
+    ok = bool(calls) and bool(stores) and all(any(g.body.dominates(c, st) for c in calls) for st in stores)
+    ctx.decide(ok, rule, rule + ":applied-before-store", g.loc, "FixLength helper dominates the write-back store",
+               "generate_un_stash_by_ref_args stores the dequeued value without going through generate_fix_string_length")
+    ctx.require(rule, 4)
+
+
 def run(ctx):
     common.install(ctx)
     c06.r2_store_routes(ctx, "C04.R1", strings_only=True)
@@ -385,3 +440,4 @@ def run(ctx):
     r6_stride_is_running_product(ctx)
     r7_kind_preserving_conversions(ctx)
     r8_casting_emitter(ctx)
+    r9_write_back_fixes_length_for_every_form(ctx)
